@@ -86,6 +86,10 @@ func main() {
 			maxpl(c, b, "1.0.3", "A", 1, "maxpl-corpus")
 		case c.Name == band.CN470:
 			maxpl(c, b, "1.0.4", "RP002-1.0.3", 0, "maxpl-corpus")
+		case c.Name == band.IN865:
+			// past failure (seeded defect): the 1.0.2 map keyed by "B" only, no "latest" fallback
+			maxpl(c, b, "1.0.2", "A", 0, "maxpl-corpus")
+			maxpl(c, b, "1.0.2", "ZZ-unknown", 7, "maxpl-corpus")
 		}
 	}
 
@@ -273,6 +277,9 @@ func main() {
 				Replay: rep(map[string]interface{}{"api": "GetDownlinkTXPower(f)", "frequency": f, "observed": v})})
 		}
 	}
+	// band objects after AddChannel histories (history.go)
+	enabledHistories(s, r, thorough, cfgs)
+
 	s.Exhaustive(fmt.Sprintf("max payload: 56 configurations x %d version strings (6 known, latest, unknown, RP002-1.0.0) x %d revision strings (7 known, latest, unknown) x DR 0..15", len(versions), len(revisions)))
 	s.Exhaustive("GetDataRate / GetDataRateIndex: 56 configurations x DR -2..16 x both directions")
 	s.Exhaustive("accepted RX1 pairs: 56 configurations x DR 0..15 x offset 0..7")
